@@ -938,20 +938,20 @@ def nt_ispovm(case):
 
 
 SUBCHECKS = [
-    SubCheck("unitary", check_unitary, _unitary_case, nt_unitary, quick=1500, thorough=25000),
-    SubCheck("density_matrix", check_density, _density_case, nt_density, quick=2000, thorough=30000),
-    SubCheck("density_matrix_bures_rank", check_density, lambda: _density_case(bures_rank=True), nt_density, quick=400, thorough=6000, shards=4),
-    SubCheck("psd_operator", check_psd, _dreal_case, nt_dreal("psd"), quick=1000, thorough=15000, shards=8),
-    SubCheck("orthonormal_basis", check_basis, _dreal_case, nt_dreal("basis"), quick=1000, thorough=15000, shards=8),
-    SubCheck("state_vector", check_state_vector, lambda: _sv_case(False), nt_sv, quick=2000, thorough=30000),
-    SubCheck("state_vector_listdim", check_state_vector, lambda: _sv_case(True), nt_sv, quick=2000, thorough=30000),
-    SubCheck("povm", check_povm, _povm_case, nt_povm, quick=1500, thorough=25000),
-    SubCheck("ginibre_states_circulant", check_misc, _misc_case, nt_misc, quick=1500, thorough=20000, shards=8),
-    SubCheck("seed_difference", check_seed_difference, _seeddiff_case, nt_seeddiff, quick=2000, thorough=30000),
-    SubCheck("history", HISTORY.replay, machine=HISTORY, nontrivial=nt_history, quick=320, thorough=6000),
-    SubCheck("pgm_pbm_povm", check_pgm_pbm, _ensemble_case, nt_ensemble, quick=1200, thorough=20000),
-    SubCheck("pgm_bad_priors", check_bad_priors, _badprior_case, lambda c: f"badpriors:{c['which']}:{c['bad']}", quick=300, thorough=4000, shards=4),
-    SubCheck("pgm_bounds", check_pgm_bounds, lambda: _ensemble_case(dmax=4, nmax=5), nt_ensemble, quick=320, thorough=5000, case_timeout=30),
-    SubCheck("measure", check_measure, _measure_case, nt_measure, quick=3000, thorough=50000),
-    SubCheck("is_povm", check_is_povm, _ispovm_case, nt_ispovm, quick=1000, thorough=15000, shards=8),
+    SubCheck("unitary", check_unitary, _unitary_case, nt_unitary, quick=4000, thorough=70000),
+    SubCheck("density_matrix", check_density, _density_case, nt_density, quick=6000, thorough=100000),
+    SubCheck("density_matrix_bures_rank", check_density, lambda: _density_case(bures_rank=True), nt_density, quick=1200, thorough=20000, shards=4),
+    SubCheck("psd_operator", check_psd, _dreal_case, nt_dreal("psd"), quick=3000, thorough=50000, shards=8),
+    SubCheck("orthonormal_basis", check_basis, _dreal_case, nt_dreal("basis"), quick=3000, thorough=50000, shards=8),
+    SubCheck("state_vector", check_state_vector, lambda: _sv_case(False), nt_sv, quick=6000, thorough=100000),
+    SubCheck("state_vector_listdim", check_state_vector, lambda: _sv_case(True), nt_sv, quick=6000, thorough=100000),
+    SubCheck("povm", check_povm, _povm_case, nt_povm, quick=4000, thorough=70000),
+    SubCheck("ginibre_states_circulant", check_misc, _misc_case, nt_misc, quick=4000, thorough=60000, shards=8),
+    SubCheck("seed_difference", check_seed_difference, _seeddiff_case, nt_seeddiff, quick=6000, thorough=100000),
+    SubCheck("history", HISTORY.replay, machine=HISTORY, nontrivial=nt_history, quick=1000, thorough=16000),
+    SubCheck("pgm_pbm_povm", check_pgm_pbm, _ensemble_case, nt_ensemble, quick=3500, thorough=60000),
+    SubCheck("pgm_bad_priors", check_bad_priors, _badprior_case, lambda c: f"badpriors:{c['which']}:{c['bad']}", quick=800, thorough=12000, shards=4),
+    SubCheck("pgm_bounds", check_pgm_bounds, lambda: _ensemble_case(dmax=4, nmax=5), nt_ensemble, quick=800, thorough=14000, case_timeout=30),
+    SubCheck("measure", check_measure, _measure_case, nt_measure, quick=8000, thorough=140000),
+    SubCheck("is_povm", check_is_povm, _ispovm_case, nt_ispovm, quick=3000, thorough=50000, shards=8),
 ]
